@@ -64,6 +64,11 @@ def case_strategy(draw):
         # offset of the channel in the CoE index space (Struct's third
         # parameter), used by process variables declared inside the channel
         t["coe_off"] = draw(st.sampled_from([0, 0x100, 0x200, 0x800]))
+        if terms and draw(st.integers(0, 2)) == 0:
+            # another terminal of the same type as the previous one
+            import copy
+            t = dict(copy.deepcopy(terms[-1]), position=t["position"],
+                     use_fmmu=t["use_fmmu"])
         terms.append(t)
     cands = [(ti, d, v["name"]) for ti, t in enumerate(terms)
              for d in ("in", "out") for v in t[d]]
@@ -87,8 +92,9 @@ def strategy(tier):
     return case_strategy()
 
 
-def make_terminal(ec, spec, index):
-    """like groups.make_terminal, plus Struct channels with offsets"""
+def make_terminal(ec, spec, index, classes=None):
+    """like groups.make_terminal, plus Struct channels with offsets;
+    terminals of the same description are instances of one class"""
     posmap = {}
     ns = {}
     pdos = {}
@@ -132,7 +138,13 @@ def make_terminal(ec, spec, index):
     if sns:
         Ch = type("Ch", (Struct,), sns)
         ns["ch"] = Ch(soff[0], soff[1], spec.get("coe_off", 0))
-    cls = type(f"T{index}", (EBPFTerminal,), ns)
+    key = repr((spec["in"], spec["out"], soff, spec.get("coe_off", 0)))
+    if classes is not None and key in classes:
+        cls = classes[key]
+    else:
+        cls = type(f"T{index}", (EBPFTerminal,), ns)
+        if classes is not None:
+            classes[key] = cls
     t = cls(ec)
     t.name = f"T{index}"
     t.position = spec["position"]
@@ -157,7 +169,9 @@ def fit(value, size):
 
 def build(case, kind):
     ec = FastEtherCat("verif")
-    terms = [make_terminal(ec, s, i) for i, s in enumerate(case["terminals"])]
+    classes = {}     # terminals of the same description share their class
+    terms = [make_terminal(ec, s, i, classes)
+             for i, s in enumerate(case["terminals"])]
     links = case["links"]
     ns = {}
     for k, ln in enumerate(links):
